@@ -154,6 +154,17 @@ func isPanicCall(info *types.Info, c *ast.CallExpr) bool {
 }
 
 func lhsObj(info *types.Info, e ast.Expr) types.Object {
+	// a field of a local struct variable (`out.err`): the field stands for the variable
+	if se, ok := e.(*ast.SelectorExpr); ok {
+		if base, ok := se.X.(*ast.Ident); ok {
+			if v, ok := info.Uses[base].(*types.Var); ok && !v.IsField() && v.Parent() != nil && v.Parent() != v.Pkg().Scope() {
+				if f, ok := info.Uses[se.Sel].(*types.Var); ok && f.IsField() {
+					return f
+				}
+			}
+		}
+		return nil
+	}
 	id, ok := e.(*ast.Ident)
 	if !ok || id.Name == "_" {
 		return nil
@@ -232,7 +243,11 @@ func nilTest(info *types.Info, e ast.Expr, obj types.Object) (token.Token, bool)
 		return 0, false
 	}
 	isObj := func(x ast.Expr) bool {
-		id, ok := ast.Unparen(x).(*ast.Ident)
+		x = ast.Unparen(x)
+		if se, ok := x.(*ast.SelectorExpr); ok {
+			return obj != nil && info.Uses[se.Sel] == obj
+		}
+		id, ok := x.(*ast.Ident)
 		return ok && obj != nil && info.Uses[id] == obj
 	}
 	isNil := func(x ast.Expr) bool {
